@@ -267,6 +267,92 @@ theorem C18_destination_counterexample_before_fix :
     destPath ["a".toList, "b".toList] "dst/".toList = ["a".toList, "b".toList, "dst".toList] ∧
     destPath [] "a/b/dst/".toList = ["a".toList, "b".toList, "dst".toList] := by decide
 
+/-! ## the destination guard of copy and move is evaluated at the same path from every directory -/
+
+theorem destPath_eq_xvcPathNew (cwd : List Str) (d : Str) : destPath cwd d = xvcPathNew cwd (stripSlash d) := rfl
+
+/-- prefixing with the current directory keeps the directory marker and commutes with removing it -/
+theorem stripSlash_rootTarget (cwd : List Str) (d : Str) (hd : d ≠ []) :
+    endsWithSlash (rootTarget cwd d) = endsWithSlash d ∧
+    stripSlash (rootTarget cwd d) = if endsWithSlash d then rootTarget cwd d.dropLast else rootTarget cwd d := by
+  by_cases h : cwd = []
+  · subst h
+    exact ⟨rfl, rfl⟩
+  · have e : rootTarget cwd d = (cwdStr cwd ++ ['/']) ++ d := by rw [rootTarget_eq cwd d h]; simp
+    have hs : endsWithSlash (rootTarget cwd d) = endsWithSlash d := by
+      unfold endsWithSlash
+      rw [e, getLast?_append_ne_nil _ _ hd]
+    refine ⟨hs, ?_⟩
+    unfold stripSlash
+    rw [hs]
+    cases endsWithSlash d with
+    | false => rfl
+    | true =>
+      simp only [if_true]
+      rw [e, List.dropLast_append_of_ne_nil hd, rootTarget_eq cwd _ h]
+      simp
+
+/-- **C18, destinations of copy and move, file and directory.**  For every current directory and
+    every destination argument (file, or directory `dir/`) without `.`/`..`/empty components: the
+    root-relative destination path, the ABSOLUTE path at which the guard looks for a file Xvc does
+    not know about, and the decision of the guard are the ones the same command gets at the root
+    with the root-relative destination; the guard path is `root / resolve(cwd, arg)`, never
+    `root / cwd / resolve(cwd, arg)`. -/
+theorem C18_copy_destination_same_from_any_cwd (root cwd : List Str) (hw : WfCwd cwd)
+    (hp : ∀ c ∈ cwd, PlainComp c) (arg : Str) (ha : ∀ c ∈ splitSlash (stripSlash arg), PlainComp c)
+    (src : List Str) (force : Bool) (recorded : List Str) (onDisk : List Str → Bool) :
+    copyDest cwd arg src = copyDest [] (rootTarget cwd arg) src ∧
+    guardPath root cwd arg src = root ++ copyDest [] (rootTarget cwd arg) src ∧
+    guardPath root cwd arg src = guardPath root [] (rootTarget cwd arg) src ∧
+    copyRefused force recorded onDisk root cwd arg src =
+      copyRefused force recorded onDisk root [] (rootTarget cwd arg) src := by
+  have hne : arg ≠ [] := by
+    intro e
+    subst e
+    have := (ha [] (by decide)).1
+    exact this rfl
+  obtain ⟨hs, hst⟩ := stripSlash_rootTarget cwd arg hne
+  have hdp : destPath cwd arg = destPath [] (rootTarget cwd arg) := by
+    rw [destPath_eq_xvcPathNew, destPath_eq_xvcPathNew, hst, C18_destination_equiv cwd hw hp _ ha]
+    unfold stripSlash
+    cases endsWithSlash arg <;> rfl
+  have hcd : copyDest cwd arg src = copyDest [] (rootTarget cwd arg) src := by
+    unfold copyDest
+    rw [hs, hdp]
+  refine ⟨hcd, ?_, ?_, ?_⟩
+  · unfold guardPath; rw [hcd]
+  · unfold guardPath; rw [hcd]
+  · unfold copyRefused guardPath; rw [hcd]
+
+/-- for a file destination the guard path is the root, the components of the current directory, the
+    components of the argument — the current directory occurs exactly once -/
+theorem C18_copy_guard_path_file (root cwd : List Str) (arg : Str) (hs : endsWithSlash arg = false)
+    (ha : ∀ c ∈ splitSlash arg, PlainComp c) (src : List Str) :
+    guardPath root cwd arg src = root ++ (cwd ++ splitSlash arg) := by
+  unfold guardPath copyDest destPath xvcPathNew
+  simp only [hs, Bool.false_eq_true, if_false]
+  rw [normalize_plain _ _ ha, List.reverse_reverse]
+
+/-- evaluating the guard against the current directory instead of the root is a different function
+    everywhere but at the root: in `data`, `xvc file copy a.txt b.txt` must look at `<root>/data/b.txt`
+    (an untracked `data/b.txt` refuses the copy, from `data` exactly as from the root); looking at
+    `<root>/data/data/b.txt` does not see it.  Replayed on the real binary by `lib/c18.py`. -/
+theorem C18_copy_guard_against_cwd_differs :
+    guardPath ["R".toList] ["data".toList] "b.txt".toList ["data".toList, "a.txt".toList]
+      = ["R".toList, "data".toList, "b.txt".toList] ∧
+    guardPath ["R".toList] [] "data/b.txt".toList ["data".toList, "a.txt".toList]
+      = ["R".toList, "data".toList, "b.txt".toList] ∧
+    guardPathFromCwd ["R".toList] ["data".toList] "b.txt".toList ["data".toList, "a.txt".toList]
+      = ["R".toList, "data".toList, "data".toList, "b.txt".toList] ∧
+    guardPath ["R".toList] ["data".toList] "backup/".toList ["data".toList, "a.txt".toList]
+      = ["R".toList, "data".toList, "backup".toList, "data".toList, "a.txt".toList] ∧
+    copyRefused false ["data/a.txt".toList] (fun p => p == ["R".toList, "data".toList, "b.txt".toList])
+      ["R".toList] ["data".toList] "b.txt".toList ["data".toList, "a.txt".toList] = true ∧
+    copyRefused true ["data/a.txt".toList] (fun p => p == ["R".toList, "data".toList, "b.txt".toList])
+      ["R".toList] ["data".toList] "b.txt".toList ["data".toList, "a.txt".toList] = false ∧
+    copyRefused false ["data/a.txt".toList] (fun p => p == ["R".toList, "data".toList, "b.txt".toList])
+      ["R".toList] ["data".toList] "c.txt".toList ["data".toList, "a.txt".toList] = false := by decide
+
 /-! ## no targets: exactly the descendants of the current directory, component-wise -/
 
 /-- what `properAncestor` says: the components of `p` are the components of `cwd` followed by at
@@ -376,6 +462,19 @@ theorem C18_string_prefix_selection_differs :
 
 /-! ## non-vacuity -/
 
+/-- the hypotheses of `C18_copy_destination_same_from_any_cwd` hold for `cwd = data`, `arg = b.txt`
+    and for the directory destination `backup/` -/
+example : (∀ c ∈ ["data".toList], PlainComp c) ∧
+    (∀ c ∈ splitSlash (stripSlash "b.txt".toList), PlainComp c) ∧
+    (∀ c ∈ splitSlash (stripSlash "backup/".toList), PlainComp c) := by
+  have h1 : splitSlash (stripSlash "b.txt".toList) = ["b.txt".toList] := by decide
+  have h2 : splitSlash (stripSlash "backup/".toList) = ["backup".toList] := by decide
+  rw [h1, h2]
+  refine ⟨?_, ?_, ?_⟩ <;> (intro c hc; simp at hc; subst hc; exact ⟨by decide, by decide, by decide⟩)
+example : copyDest ["data".toList] "b.txt".toList ["data".toList, "a.txt".toList] = ["data".toList, "b.txt".toList] ∧
+    copyDest [] (rootTarget ["data".toList] "b.txt".toList) ["data".toList, "a.txt".toList]
+      = ["data".toList, "b.txt".toList] := by decide
+
 /-- a string-prefix sibling is NOT selected: `data2/b.txt` with the current directory `data` -/
 example : "data2/b.txt".toList ∉
     selectStore globMatch (fun _ => true) ["data".toList] none
@@ -477,3 +576,9 @@ open Targets in
 #print axioms C18_no_targets_excludes_siblings
 open Targets in
 #print axioms C18_string_prefix_selection_differs
+open Targets in
+#print axioms C18_copy_destination_same_from_any_cwd
+open Targets in
+#print axioms C18_copy_guard_path_file
+open Targets in
+#print axioms C18_copy_guard_against_cwd_differs
